@@ -92,12 +92,12 @@ fn weights(p: Profile) -> &'static [(Code, u32)] {
         Profile::Ub => &[
             (Insert, 30), (Get, 4), (GetMut, 3), (Remove, 10), (RemoveEntry, 6), (Entry, 16), (RawEntryMut, 12),
             (Retain, 5), (DrainFilter, 5), (Drain, 2), (IntoIter, 1), (Iter, 2), (IterMut, 2), (Extend, 3),
-            (Reserve, 2), (ShrinkToFit, 2), (ShrinkTo, 1), (CloneSwap, 1), (CloneFrom, 1), (Clear, 1), (Index, 1),
+            (Reserve, 2), (TryReserve, 2), (ShrinkToFit, 2), (ShrinkTo, 1), (CloneSwap, 1), (CloneFrom, 1), (Clear, 1), (Index, 1),
         ],
         Profile::Drops => &[
             (Insert, 28), (Remove, 8), (RemoveEntry, 6), (Entry, 14), (RawEntryMut, 10), (Retain, 4), (DrainFilter, 5),
             (Drain, 4), (IntoIter, 3), (Clear, 2), (Extend, 4), (FromIter, 2), (CloneSwap, 3), (CloneFrom, 3),
-            (Reserve, 2), (ShrinkToFit, 2), (GetMut, 2), (IterMut, 1), (WithCapacity, 1),
+            (Reserve, 2), (TryReserve, 2), (ShrinkToFit, 2), (ShrinkTo, 1), (GetMut, 2), (IterMut, 1), (WithCapacity, 1),
         ],
         Profile::Iters => &[
             (Insert, 30), (Remove, 10), (Iter, 8), (Keys, 4), (Values, 4), (IterMut, 5), (ValuesMut, 4), (IntoIter, 4),
